@@ -6,6 +6,7 @@ from .motion import MotionMonitor, mk
 from ..e2e import Engine
 from ..gen import gen_program, gen_wild, gen_regions
 from ..refprinter import tokenize
+from ..harness import depth_in
 
 
 class C02(MotionMonitor):
@@ -56,7 +57,18 @@ class C02(MotionMonitor):
         common_stats(tr, stats, sets)
         stats["class:" + case["cls"]] += 1
         v = []
-        entered = any(r.get("dest_in") for r in tr.steps)
+        # the engine classifies an arc by the points the filter itself planned; for this property an arc counts as entering a
+        # region only if the reference printer's own path (0.05 mm samples of the commanded arc) comes within 0.1 mm of one
+        def entered_by(r):
+            if not r.get("dest_in"):
+                return False
+            if r.get("move_kind") == "arc" and r.get("b_moves"):
+                pts = [q for m in r["b_moves"] for q in (m.get("pts") or [])]
+                if pts and max(depth_in(list(r["regs"]), q[0], q[1]) for q in pts) < -0.1:
+                    stats["c02_arcs_clear_by_reference_but_planned_inside"] += 1
+                    return False
+            return True
+        entered = any(entered_by(r) for r in tr.steps)
         if entered or tr.truncated:
             stats["discarded_generator_entered_region_or_truncated"] += 1
             return dict(violations=[], nontrivial=False, stats=stats, sets=sets, sample=None)
